@@ -119,18 +119,9 @@ def h_template(name, cur_year=None):
                 parser.info._year = kw["now"]
                 parser.info._century = kw["now"] // 100 * 100
         try:
-            if ctx.symbolic:
+            import contextlib
+            with (contextlib.nullcontext() if ctx.symbolic else K.native_env()):
                 r = parser.parse(text, default=default, **pk)
-            else:
-                from engine import stubs as _st
-                import time as _t
-
-                class _TS(object):       # same local-zone-name assumption natively
-                    tzname = ("LCL", "LCD")
-                    localtime = staticmethod(_t.localtime)
-                    timezone, altzone, daylight = 0, 0, 0
-                with _st.rebind("dateutil.parser._parser", time=_TS):
-                    r = parser.parse(text, default=default, **pk)
         except P.ParserError as e:
             ctx.fail("a well-formed %s rendering was rejected: %s" % (name, type(e).__name__), key="reject:" + name.split("-")[0])
         except Exception as e:
